@@ -19,7 +19,8 @@ pub struct Cfg {
     pub fdt_e: u16,
     /// 0 = three plain objects; 1 = the first is transferred twice, the second is a carousel object
     /// (1 s between transfers), the third has a start time 1 s after t0; 2 = transfer counts 0 and 3, a
-    /// carousel with a zero delay
+    /// carousel with a zero delay; 3 = other add order; 4 = target acquisition: deadline passed / deadline now / zero
+    /// duration; 5 = target acquisition: duration 1 s / deadline in 1.5 s / as fast as possible
     #[serde(default)]
     pub catalog_kind: u8,
     /// session OTI = Reed-Solomon without parity symbols, under which no FDT instance can be encoded: every
@@ -48,6 +49,18 @@ pub fn catalog_of(kind: u8) -> Vec<ObjSpec> {
     if kind == 3 {
         // other add order (the search adds objects in catalogue order): low priority first
         v.swap(0, 1);
+    }
+    if kind == 4 {
+        // target acquisition in every form: a deadline already passed, a deadline at the very instant of the first
+        // poll, a zero duration (the pacing bookkeeping must not disturb "announce before send")
+        v[0].target = Some(Target::AtMs(-1000));
+        v[1].target = Some(Target::AtMs(0));
+        v[2].target = Some(Target::WithinMs(0));
+    }
+    if kind == 5 {
+        v[0].target = Some(Target::WithinMs(1000));
+        v[1].target = Some(Target::AtMs(1500));
+        v[2].target = Some(Target::Asap);
     }
     if kind == 2 {
         // degenerate and extreme transfer counts: 0 (flute sends such an object once) and a large one
@@ -321,6 +334,12 @@ pub fn configs() -> Vec<Cfg> {
             v.push(Cfg { full_fdt, multiplex: 1, queues: 1, fdt_e: 512, catalog_kind: 0, sess_raptor: false, sess_rs: false, fdt_carousel, sess_real_raptor: false });
         }
         v.push(Cfg { full_fdt, multiplex: 2, queues: 2, fdt_e: 1424, catalog_kind: 1, sess_raptor: false, sess_rs: false, fdt_carousel: 1, sess_real_raptor: false });
+    }
+    // objects with a target acquisition (pacing)
+    for full_fdt in [true, false] {
+        for catalog_kind in [4u8, 5] {
+            v.push(Cfg { full_fdt, multiplex: 1, queues: 2, fdt_e: 1424, catalog_kind, sess_raptor: false, sess_rs: false, fdt_carousel: 0, sess_real_raptor: false });
+        }
     }
     // Raptor-coded FDT instances
     for full_fdt in [true, false] {
